@@ -106,6 +106,18 @@ where
       Sample::Dispose(k) => k.clone(),
     };
 
+    // This cache is keyed and ordered by reception timestamp, and the History
+    // depth below evicts the oldest keys of an instance. Samples are added here
+    // in the order they became available to the DataReader (for one writer:
+    // sequence number order), which is not always the order in which their
+    // datagrams arrived: an earlier sample that had to be re-sent arrives after
+    // its successors. Keep the keys in insertion order, so that the sample
+    // added last is also the newest one. (Also makes the keys unique.)
+    let receive_timestamp = match self.datasamples.keys().next_back() {
+      Some(latest) if *latest >= receive_timestamp => Timestamp::from_ticks(latest.to_ticks() + 1),
+      _ => receive_timestamp,
+    };
+
     let new_instance_state = match new_sample {
       Sample::Value(_) => InstanceState::Alive,
       Sample::Dispose(_) => InstanceState::NotAliveDisposed,
